@@ -126,4 +126,19 @@ PROPS = {
         "tags": {1: "operation results", 2: "database contents after the transaction", 3: "reference index (GetReferences)"},
         "assumptions": [],
     },
+    "C15": {
+        "level_text": ("Theorems (Props/C15.v, axiom-free): the name substitution is computed from all inserts first and applied to every UUID atom of every operation, so "
+                       "each use of a name - before or after its insert, in rows, set elements, map keys and values, conditions, mutations - becomes the UUID of the insert "
+                       "carrying it; non-UUID atoms (text equal to a name) and real UUIDs are untouched; two inserts claiming a name with different UUIDs are rejected; "
+                       "expansion keeps each insert's own UUID, which by the insert law is the UUID reported and stored. Tied to the code by transactions with 1..4 named "
+                       "inserts (70% with explicit UUIDs, the rest server-assigned and renamed) whose names occur in every UUID position next to equal text."),
+        "level_note": ("Trusted: Coq kernel + vm_compute, std++; Go harness. In the model atoms are typed (AUuid vs AStr), so 'non-UUID position' is 'non-UUID atom'; that the "
+                       "code's schema-directed expansion coincides with it for well-typed values is what the correspondence checks. Client-side Create() (non-UUID _uuid "
+                       "field becoming a uuid-name) is not yet covered."),
+        "rule": ("histories of 1..4 transactions; 85% built by the named-insert generator: 1..4 named inserts into two tables, operations using the names (update/mutate/select "
+                 "with names in rows, sets, map keys, map values, conditions, mutations) placed before and after the inserts, string columns holding the same text, 15% a "
+                 "second insert claiming an existing name. Non-trivial: names occur in >= 2 UUID positions of the transaction."),
+        "tags": {1: "operation results", 2: "database contents after the transaction", 3: "reference index (GetReferences)"},
+        "assumptions": ["names are not syntactically valid UUIDs"],
+    },
 }
